@@ -326,6 +326,11 @@ package gohlslib
 //@   props C06 C13
 //@   ensures (msn == "" && part == "") ==> (result0 == 0 && result1 == 0 && result2 == nil)
 //@   ensures result2 != nil ==> (result0 == 0 && result1 == 0)
+// the directives are decimal-integers (RFC 8216bis 6.2.5.2): parsed in base 10, and each non-empty value is parsed, whole
+//@   atcall strconv.ParseUint arg1 == 10 && arg2 == 64 && (arg0 == msn || arg0 == part)
+//@   ensures result2 == nil ==> calls("strconv.ParseUint") == ite(msn != "", 1, 0) + ite(part != "", 1, 0)
+//@   ensures (result2 == nil && msn != "") ==> (callarg("strconv.ParseUint", 0, 0) == msn && result0 == callres("strconv.ParseUint", 0))
+//@   ensures (result2 == nil && part != "") ==> (callarg("strconv.ParseUint", calls("strconv.ParseUint") - 1, 0) == part && result1 == callres("strconv.ParseUint", calls("strconv.ParseUint") - 1))
 //@ end
 
 
